@@ -5,7 +5,7 @@
    replayed on the real pre-fix code (notes/C13.md).  Also: witnesses showing that the
    hypotheses of kube_view_exact are needed. *)
 From Coq Require Import List ZArith Bool.
-From GZ Require Import C13.Model C13.Proofs C13.ProofsB C13.ProofsC C13.ProofsD.
+From GZ Require Import C13.Model C13.Proofs C13.ProofsB C13.ProofsC C13.ProofsD C13.ProofsF.
 Import ListNotations.
 Open Scope Z_scope.
 
@@ -91,6 +91,32 @@ Theorem lazy_dirty_snapshot_refuted :
   exists log, let c := fold_left lazy_c_apply log (new_container false) in
               c_values c = [2; 1] /\ c_view c = [2] /\ clast c = [2; 1].
 Proof. exists [LAdd 1 1; LAdd 2 2; LAdd 1 2]. vm_compute. repeat split; reflexivity. Qed.
+
+(* ------------------------------------------------------------------ boundary of events_after_snapshot *)
+(* Watch events with a revision <= the snapshot's are NOT idempotent: etcd did
+   put k1=v1 (rev 1), delete k1 (rev 2); the registry loads at revision 2 (empty) and is
+   then delivered the watch event of revision 1 again: the deleted registration is
+   resurrected and shown although etcd has nothing.  (The code avoids this by watching
+   from rev+1.) *)
+Theorem stale_replay_after_snapshot_refuted :
+  exists h ds, ~ events_after_snapshot h 0 ds /\
+    etcd_state h 2 = [] /\
+    map c_values (conts (run (init [false]) (map (ev_of h) ds))) = [[1]].
+Proof.
+  exists [BPut 1 1; BDel 1], [DLoad 2 [] []; DWatch 0]. split; [|split; reflexivity].
+  cbn. intros [_ [H _]]. discriminate.
+Qed.
+
+(* ... and a gap loses a registration (what would happen with a response header revision
+   of 0: no WithRev, the watch starts after mutations made since the Get) *)
+Theorem gap_after_snapshot_refuted :
+  exists h ds, ~ events_after_snapshot h 0 ds /\
+    etcd_state h 2 = [(2, 2); (1, 1)] /\
+    map c_values (conts (run (init [false]) (map (ev_of h) ds))) = [[2]].
+Proof.
+  exists [BPut 1 1; BPut 2 2], [DLoad 0 [] []; DWatch 1]. split; [|split; reflexivity].
+  cbn. intros [_ [H _]]. discriminate.
+Qed.
 
 (* ------------------------------------------------------------------ kube: boundary of kube_view_exact *)
 (* Outside the informer discipline the handler is NOT exact (it unions on OnAdd and
